@@ -1,7 +1,7 @@
 #!/bin/bash
-# usage: confirm_seed.sh <Cxx> <A|B>   -- confirms a sub-agent's seeded change in its scratch worktree
+# usage: confirm_seed.sh <Cxx> <A|B|C|D> [worktree prefix, default /tmp/wt_]   -- confirms a sub-agent's seeded change in its scratch worktree
 # (demo fails with change, passes without; pinned suite passes with change) and files it under /verif/seeded.
-id="$1"; x="$2"; wt="/tmp/wt_$id"; out="$wt/_out"
+id="$1"; x="$2"; wt="${3:-/tmp/wt_}$id"; out="$wt/_out"
 [ -f "$out/patch_$x.diff" ] || { echo "no patch $id $x"; exit 2; }
 cd "$wt" || exit 2
 git checkout -q -- wsimod
